@@ -22,6 +22,14 @@ fn three_lines(l: &mut Listing) -> [u16; 3] {
 }
 /// `with_token == false`: lines without tokens (cannot be typed in, but the store does not care) — used where the harness
 /// has to format a symbolically selected line and token formatting would only add cost.
+fn two_token_lines(l: &mut Listing) -> [u16; 2] {
+    let (n0, n1) = (vk::any_u16(), vk::any_u16());
+    vk::assume(n0 < n1 && n1 <= MAXLN);
+    let m = Arc::get_mut(&mut l.source).unwrap();
+    m.harness_push_ascending(Some(n0), one_token_line(n0, 1));
+    m.harness_push_ascending(Some(n1), one_token_line(n1, 2));
+    [n0, n1]
+}
 fn two_lines(l: &mut Listing) -> [u16; 2] {
     let (n0, n1) = (vk::any_u16(), vk::any_u16());
     vk::assume(n0 < n1 && n1 <= MAXLN);
@@ -178,21 +186,21 @@ vk_harness!(c15_delete_removes_exactly_the_range, {
     core::mem::forget(l);
 });
 
-//@ prop: C97X
+//@ prop: C15
 //@ tier: quick
 //@ unwind: 12
 //@ encodes: Listing::insert
-//@ bounds: 3 stored lines with arbitrary numbers n0<n1<n2<=65529 (state built directly); one further numbered line (any number, new or existing)
+//@ bounds: 2 stored lines with arbitrary numbers n0<n1<=65529 (state built directly); one further numbered line (any number, new or existing)
 vk_harness!(c15_numbered_line_inserts_or_replaces, {
     let mut l = Listing::default();
-    let s = three_lines(&mut l);
+    let s = two_token_lines(&mut l);
     let n = vk::any_u16();
     vk::assume(n <= MAXLN);
-    let existed = n == s[0] || n == s[1] || n == s[2];
+    let existed = n == s[0] || n == s[1];
     let old = l.insert(one_token_line(n, 9));
     vk_check!(old.is_some() == existed, "C15: a numbered line replaces the line with that number, or is new");
-    vk_check!(count(&l) == if existed { 3 } else { 4 }, "C15: inserting changes nothing else");
-    vk_check!(stored(&l, s[0]) && stored(&l, s[1]) && stored(&l, s[2]) && stored(&l, n), "C15: insert must keep every other line");
+    vk_check!(count(&l) == if existed { 2 } else { 3 }, "C15: inserting changes nothing else");
+    vk_check!(stored(&l, s[0]) && stored(&l, s[1]) && stored(&l, n), "C15: insert must keep every other line");
     vk_check!(well_ordered(&l), "C15: the store stays ordered by line number");
     match crate::lang::vh_line::tokens_of(l.source.get(&Some(n)).unwrap()).get(0) {
         Some(Token::Whitespace(9)) => {}
@@ -204,7 +212,7 @@ vk_harness!(c15_numbered_line_inserts_or_replaces, {
     core::mem::forget(old);
 });
 
-//@ prop: C97X
+//@ prop: C15
 //@ tier: quick
 //@ unwind: 12
 //@ encodes: Listing::remove
@@ -293,14 +301,14 @@ vk_harness!(c14_renum_numbering_2, {
 // ---------------------------------------------------------------------------------------------------------------
 // C03: a listing snapshot handed to the UI must not make a later edit crash (copy-on-write)
 
-//@ prop: C97
+//@ prop: C03 C15
 //@ tier: quick
 //@ unwind: 12
 //@ encodes: Listing::clone (snapshot, as Runtime::get_listing hands out); Listing::insert; Listing::remove; Listing::remove_range
-//@ bounds: listing with 3 lines n0<n1<n2 (arbitrary numbers), one live snapshot; then one edit: insert (any number), bare-number delete (any number) or DELETE a-b (any range)
+//@ bounds: listing with 2 lines n0<n1 (arbitrary numbers), one live snapshot; then one edit: insert (any number), bare-number delete (any number) or DELETE a-b (any range)
 vk_harness!(c03_snapshot_does_not_block_edits, {
     let mut l = Listing::default();
-    let s = three_lines(&mut l);
+    let s = two_token_lines(&mut l);
     let snapshot = l.clone(); // what the terminal keeps for line completion / SAVE
     let which = vk::any_below(3);
     let m = vk::any_u16();
@@ -321,7 +329,7 @@ vk_harness!(c03_snapshot_does_not_block_edits, {
         }
     }
     // the snapshot is a snapshot: it still shows the program as it was
-    vk_check!(count(&snapshot) == 3 && stored(&snapshot, s[0]) && stored(&snapshot, s[1]) && stored(&snapshot, s[2]),
+    vk_check!(count(&snapshot) == 2 && stored(&snapshot, s[0]) && stored(&snapshot, s[1]),
         "C03: an edit must not change (or be blocked by) a listing snapshot that is still alive");
     vk_cover!(which == 0, "reach: insert with live snapshot");
     vk_cover!(which == 2, "reach: delete range with live snapshot");
